@@ -133,6 +133,9 @@ def run(ctx):
                 if ent and ent[0] == "distinfo::Entry":
                     flds = dict(zip(strip_refs(e.args[2])[5], ent[2]))
                     okf = mentions(flds.get("filename"), lambda s: s == ("param", 2))
+                    # the new entry's own type is the classification that selected the map
+                    ft = flds.get("filetype")
+                    okf = okf and bool(cl) and ft == cl[0].term
                     if fn.endswith("update_size"):
                         sz = unwrap_some(flds.get("size"))
                         okf = okf and sz == ("param", 3)
